@@ -370,6 +370,37 @@ def check_flow(ctx, tie, fm, cfg, state, rng):
         return
     fin = torch.isfinite(lp)
 
+    # "the array-level interface agrees with the underlying model": the function the flow computes must be the one its
+    # PARAMETERS define.  A second FlowModel of the same configuration receives the state_dict (what save_weights /
+    # load_weights / a resume do) and must give the same forward map, log-determinant and log-density; a transform that
+    # keeps serving values cached before a reset does not (seeded change C08-c: LULinear reset without cache invalidation)
+    try:
+        from nessai.flowmodel import FlowModel
+        out2 = tempfile.mkdtemp(prefix="c08c_")
+        try:
+            rs = torch.random.get_rng_state()
+            fm2 = FlowModel(flow_config=flow_config(cfg), training_config=dict(max_epochs=1, batch_size=100), output=out2)
+            fm2.initialise()
+            fm2.model.load_state_dict(m.state_dict())
+            fm2.model.eval()
+            torch.random.set_rng_state(rs)
+            with torch.inference_mode():
+                zc, ldc = fm2.model.forward(xt)
+                lpc = fm2.model.log_prob(xt)
+                xc, ldic = fm2.model.inverse(z)
+        finally:
+            shutil.rmtree(out2, ignore_errors=True)
+        for nm, a, c in (("forward", z, zc), ("forward.logdet", ld, ldc), ("log_prob", lp, lpc), ("inverse", xrw, xc),
+                         ("inverse.logdet", ldiw, ldic)):
+            okm = torch.isfinite(a) & torch.isfinite(c)
+            if a.dim() == 2:
+                okm = okm.all(dim=1)
+            if bool(okm.any()):
+                O.close(f"NFlow.{nm}:differs-from-its-parameters", f"NFlow.{nm} (state {state}) vs a flow rebuilt from its state_dict",
+                        np64(a[okm]), np64(c[okm]), 50 * tm * (1 + np.abs(np64(c[okm]))), x64[np64(okm).astype(bool)])
+    except core.Infra:
+        raise
+
     # NFlow.forward / inverse / base_distribution_log_prob are the transform's / distribution's
     for nm, a, c in (("forward", zw, z), ("forward.logdet", ldw, ld), ("inverse", xrw, xr), ("inverse.logdet", ldiw, ldi),
                      ("base_distribution_log_prob", bw, b), ("forward_and_log_prob.z", zf, z)):
